@@ -43,6 +43,8 @@ inductive Exp where
 
 /-- `SIMTIME_MAX` as a time key (what the harness prints for it) -/
 def tMax : Nat := 2 ^ 62
+/-- the negative "not true" sentinel of `termination_t` as printed by the harness -/
+def tNone : Nat := 2 ^ 62 + 1
 
 structure Thread where
   /-- `lps_to_end` (uint64, wraps) and `max_t` of gvt/termination.c -/
@@ -68,7 +70,7 @@ structure Sys where
   allocs : Nat := 0
   frees : Nat := 0
   tterm : Nat := 0
-  /-- `lp->termination_t` per LP (0 = predicate not true; `tMax` = true since init) -/
+  /-- `lp->termination_t` per LP (`tNone` = -1.0 = predicate not true; `tMax` = true since init) -/
   termT : Array Nat := #[]
 
 def dummyEv : Event := { dest := 0, t := 0, type := 0, payload := [] }
@@ -133,7 +135,7 @@ def applyExp (s : Sys) (r : Nat) (e : Exp) (arg : Nat) : Sys × String :=
     let l := { l with hist := l.hist ++ [.past m] }
     let s := s.setLp lp l
     let th := s.th r
-    let s := if s.termT.getD lp 0 = 0 then s.setTh r { th with exp := th.exp ++ [.termproc lp (s.ev m).t] } else s
+    let s := if s.termT.getD lp tNone = tNone then s.setTh r { th with exp := th.exp ++ [.termproc lp (s.ev m).t] } else s
     (s, s!"fwd {m} lp={lp} idx={l.hist.length - 1} st={hx (digest l.st)}")
   | .antid m f => (s, s!"antid {m} f={f}")
   | .free m =>
@@ -143,17 +145,18 @@ def applyExp (s : Sys) (r : Nat) (e : Exp) (arg : Nat) : Sys × String :=
   | .fdone lp n ok => (s, s!"fdone lp={lp} n={n} c03={if ok then "ok" else "MISMATCH"}")
   | .termrb lp t =>
     -- termination_on_lp_rollback: keep = old_t < msg_time || old_t == SIMTIME_MAX
-    let old := s.termT.getD lp 0
-    let keep := decide (old < t) || old == tMax
+    let old := s.termT.getD lp tNone
+    -- keep = old_t < msg_time || old_t == SIMTIME_MAX   (old_t = -1.0 is below every time stamp)
+    let keep := old == tNone || decide (old < t) || old == tMax
     let th := s.th r
-    let s := { s with termT := s.termT.set! lp (if keep then old else 0) }
+    let s := { s with termT := s.termT.set! lp (if keep then old else tNone) }
     let s := s.setTh r { th with lpsToEnd := if keep then th.lpsToEnd else (th.lpsToEnd + 1) % 2 ^ 64 }
     (s, s!"termrb lp={lp} old={old} keep={if keep then 1 else 0}")
   | .termproc lp t =>
     -- termination_on_msg_process past the early return (`termination_t == 0` before)
     let term := canEnd s.P lp (s.lp lp).st
     let th := s.th r
-    let newT := if term then t else 0   -- term * msg_time: stays 0 for msg_time 0 (finding F2)
+    let newT := if term then t else tNone
     let lte := if term then (th.lpsToEnd + 2 ^ 64 - 1) % 2 ^ 64 else th.lpsToEnd
     let s := { s with termT := s.termT.set! lp newT }
     let s := s.setTh r { th with lpsToEnd := lte, maxT := if term then max t th.maxT else th.maxT }
@@ -294,7 +297,7 @@ def parStep (s : Sys) (toks : List String) : Sys × String :=
     ({ s with P := P, tterm := nat! tterm, lps := Array.replicate (nat! lps) { st := {} },
               ths := Array.replicate (nat! threads) {},
               rng0 := Array.replicate (nat! lps) ⟨0, 0, 0, 0⟩,
-              termT := Array.replicate (nat! lps) 0,
+              termT := Array.replicate (nat! lps) tNone,
               committed := Array.replicate (nat! lps) 0 }, "model ok")
   | ["period", _] => (s, "period")
   | ["alloc", r, o] =>
@@ -355,7 +358,7 @@ def parStep (s : Sys) (toks : List String) : Sys × String :=
     let term := canEnd s.P lp (s.lp lp).st
     let th := s.th r
     let lte := if term then th.lpsToEnd else (th.lpsToEnd + 1) % 2 ^ 64
-    let s := { s with termT := s.termT.set! lp (if term then tMax else 0) }
+    let s := { s with termT := s.termT.set! lp (if term then tMax else tNone) }
     (s.setTh r { th with lpsToEnd := lte }, s!"terminit lp={lp} term={if term then 1 else 0} lte={lte}")
   | ["free", r, m] =>
     let r := nat! r; let m := nat! m
